@@ -195,6 +195,25 @@ def bundle_roundtrip(ctx):
             ctx.violation(f"bundle:program-part-changed:{cls}", f"{src!r}: the statements after `procedure prog` differ from the output without dependencies", {"source": src, "options": dict(output_dependencies=True, procname="prog", skip_procedure_headers=False)})
 
 
+def library_wellformed(ctx):
+    """with dependencies on, the bundled runtime procedures are part of the emitted text: each of them is read by the same
+    BASIC09 front end (statement forms, operand positions) and lowered (IF/ENDIF, FOR/NEXT, WHILE/ENDWHILE, LOOP/ENDLOOP,
+    EXITIF/ENDEXIT balance, jump targets defined)"""
+    from vf.tv import lib as tvlib, machine
+
+    lib = tvlib.load_library()
+    ctx.encode("coco/resources/ecb.b09 (every procedure parsed and lowered)", tvlib.library_text())
+    for name, proc in sorted(lib.items()):
+        ctx.stats["obligations"] += 1
+        ctx.stats["programs"] += 1
+        try:
+            machine.lower(b09front.parse_program("\n".join(proc.lines)), "b09")
+            ctx.stats["identity"] += 1
+        except SyntaxErr as e:
+            ctx.violation(f"library-syntax:{name}:{normalise(str(e))}", f"bundled procedure {name}: {e}", {"procedure": name})
+    ctx.bounds["library_procedures"] = len(lib)
+
+
 def run(tier):
     ctx = Ctx("C07", tier, "translation_validation", technique="independent BASIC09 reader over real convert() output (structural) + z3 regex queries over the real grammar regexes (content closure, reserved identifiers)")
     smt.reset_stats()
@@ -230,6 +249,7 @@ def run(tier):
     content_lemmas(ctx)
     reserved_lemma(ctx)
     bundle_roundtrip(ctx)
+    library_wellformed(ctx)
     ctx.add_solver_stats(smt.STATS.export())
     ctx.extra["solver"] = {"z3": smt.z3_version()}
     ctx.explanation = "structural acceptance by the independent BASIC09 reader is decided per program (no solver); the content and identifier lemmas are z3 regex queries over the real grammar regexes with sentinel-derived emission templates"
@@ -239,6 +259,15 @@ def run(tier):
 
 
 def replay(rec):
+    if "procedure" in rec and "source" not in rec:
+        from vf.tv import lib as tvlib, machine
+
+        try:
+            machine.lower(b09front.parse_program("\n".join(tvlib.load_library()[rec["procedure"]].lines)), "b09")
+        except SyntaxErr as e:
+            print("SyntaxErr:", e)
+            return True
+        return False
     o = classify(rec["source"] + "\n", plain=False, **(rec.get("options") or OPTION_SETS[0]))
     print(o)
     if o[0] != "ok":
